@@ -163,9 +163,16 @@ func replayMain(args []string) {
 	if e == nil {
 		infra("replay: no engine for %q", rf.Property)
 	}
-	v, log, err := e.Check(rf.Case)
-	if err != nil {
-		infra("replay: %v", err)
+	var v *Violation
+	var log []string
+	if rf.Violation.Clause == "across-processes" {
+		self, _ := os.Executable()
+		v, log = crossProcessCheck(self, rf.Case, filepath.Dir(args[0]))
+	} else {
+		v, log, err = e.Check(rf.Case)
+		if err != nil {
+			infra("replay: %v", err)
+		}
 	}
 	for _, l := range log {
 		fmt.Println("  ", l)
@@ -258,8 +265,18 @@ func checkMain(args []string) {
 
 	// 1. determinism self-test: same runs, fresh processes, different GOMAXPROCS
 	detOK, detDetail := determinismSelfTest(self, *prop, *seed, cfg.DetRuns)
+	var xproc *Found
 	if !detOK {
-		infra("determinism self-test failed for %s: %s", *prop, detDetail)
+		// C15 says outputs are the same across fresh processes. Find out whether
+		// jd's outputs differ for identical operands (a violation) or whether
+		// harness-owned data differs (an infrastructure error).
+		if *prop == "C15" {
+			xproc = attributeCrossProcess(self, *seed, cfg.DetRuns, *scratch)
+		}
+		if xproc == nil {
+			infra("determinism self-test failed for %s: %s", *prop, detDetail)
+		}
+		detDetail = "digests differ across fresh processes: attributed to jd (see violation across-processes)"
 	}
 
 	// 2. workers
@@ -369,6 +386,9 @@ func checkMain(args []string) {
 		}
 	}
 
+	if xproc != nil {
+		found[xproc.V.Class()] = xproc
+	}
 	// 5. violations: known-finding filter, shrink, replay file, replay check
 	classes := make([]string, 0, len(found))
 	for cl := range found {
@@ -376,13 +396,19 @@ func checkMain(args []string) {
 	}
 	sort.Strings(classes)
 	knownSeen := map[*knownFinding]int64{}
+	shrinkStart := time.Now()
 	for _, cl := range classes {
 		f := found[cl]
 		if k := knownFor(known, &f.V); k != nil {
 			knownSeen[k] += f.Count
 			continue
 		}
-		min, mv, mlog := shrink(e, *f, cfg)
+		// minimise within a total budget: many classes usually share one root
+		// cause, and the first few minimised replays are what a reader needs
+		min, mv, mlog := f.Case, &f.V, f.Log
+		if time.Since(shrinkStart).Seconds() < cfg.ShrinkSecs*3 && f.V.Clause != "across-processes" {
+			min, mv, mlog = shrink(e, *f, cfg)
+		}
 		path := writeReplay(*verif, *prop, *seed, *tier, f, min, mv, mlog)
 		// the replay must reproduce in a fresh process before it is believed
 		cmd := exec.Command(self, "replay", path)
@@ -562,4 +588,79 @@ func selftestMain(args []string) {
 	if bad > 0 {
 		os.Exit(2)
 	}
+}
+
+// trace15Main prints, for a C15 case file, one line per call with operand
+// digest and complete output. Used to compare fresh processes.
+func trace15Main(args []string) {
+	b, err := os.ReadFile(args[0])
+	if err != nil {
+		infra("trace15: %v", err)
+	}
+	var c C15Case
+	if err := json.Unmarshal(b, &c); err != nil {
+		infra("trace15: %v", err)
+	}
+	var lines []string
+	trace15 = &lines
+	v, _, _ := checkC15(c)
+	for _, l := range lines {
+		fmt.Println(l)
+	}
+	if v != nil {
+		fmt.Println("in-process violation:", v.Class())
+	}
+}
+
+// crossProcessCheck runs the history of a C15 case in three fresh processes
+// and compares what jd returned call by call.
+func crossProcessCheck(self string, raw json.RawMessage, dir string) (*Violation, []string) {
+	f, err := os.CreateTemp(dir, "xproc-case-*.json")
+	if err != nil {
+		infra("cross-process check: %v", err)
+	}
+	f.Write(raw)
+	f.Close()
+	defer os.Remove(f.Name())
+	var outs [][]string
+	for _, gmp := range []string{"1", "4", "16", "2"} {
+		cmd := exec.Command(self, "trace15", f.Name())
+		cmd.Env = append(os.Environ(), "GOMAXPROCS="+gmp)
+		o, err := cmd.Output()
+		if err != nil {
+			infra("cross-process check: trace failed: %v", err)
+		}
+		outs = append(outs, strings.Split(strings.TrimRight(string(o), "\n"), "\n"))
+	}
+	for p := 1; p < len(outs); p++ {
+		for i := range outs[0] {
+			if i >= len(outs[p]) || outs[0][i] == outs[p][i] {
+				continue
+			}
+			a, b := outs[0][i], outs[p][i]
+			ia, ib := strings.Index(a, " output="), strings.Index(b, " output=")
+			if ia < 0 || ib < 0 || a[:ia] != b[:ib] {
+				return nil, outs[0] // operands differ: not attributable to this call
+			}
+			op := strings.Fields(a)[2]
+			v := viol15("across-processes", op, "the same call on identical values returned different results in two fresh processes: %s | %s", showStr(a[ia+8:]), showStr(b[ib+8:]))
+			return v, []string{"process 0: " + a, fmt.Sprintf("process %d: %s", p, b)}
+		}
+	}
+	return nil, outs[0]
+}
+
+// attributeCrossProcess looks for a run whose history behaves differently in
+// different processes and, if jd is responsible, returns it as a finding.
+func attributeCrossProcess(self string, seed uint64, runs int64, scratch string) *Found {
+	for run := int64(0); run < runs; run++ {
+		ch := newChooser(runSeed(seed, "C15", run))
+		c := genCase15(ch)
+		raw, _ := json.Marshal(c)
+		v, log := crossProcessCheck(self, raw, scratch)
+		if v != nil {
+			return &Found{Run: run, V: *v, Case: raw, Log: log, Count: 1}
+		}
+	}
+	return nil
 }
